@@ -251,6 +251,25 @@ func VerifCancelRestores() {
 			verifrt.Reach("set-repeated")
 		}
 	}
+	if verifrt.Param("repeat", 0) == 1 {
+		// ... or a Confirm / Cancel naming ANOTHER transaction reaches the datastore first (a client
+		// confirming the wrong id): refused, and the pending transaction's rollback still happens
+		switch verifrt.Choice("stray", 3) {
+		case 1:
+			serr := env.ds.TransactionConfirm(context.Background(), "another")
+			verifrt.Assert(serr != nil, "C05-confirm-of-another-id-refused")
+			verifrt.Reach("stray-confirm")
+		case 2:
+			serr := env.ds.TransactionCancel(context.Background(), "another")
+			verifrt.Assert(serr != nil, "C05-cancel-of-another-id-refused")
+			verifrt.Reach("stray-cancel")
+		}
+		for i := payloadsBefore; i < len(env.tgt.Updates); i++ {
+			dev.applyPayload(sc, env.tgt.Updates[i], env.tgt.Deletes[i], "C05")
+		}
+		setsBefore = env.tgt.Sets
+		payloadsBefore = len(env.tgt.Updates)
+	}
 	switch verifrt.Choice("end", ends) {
 	case 0:
 		cerr := env.ds.TransactionCancel(context.Background(), "t1")
